@@ -617,7 +617,17 @@ func (x *Exec) applyContract(env *evalEnv, n *ast.CallExpr, cu *FuncUnit, con *C
 				continue
 			}
 			for _, tn := range splitList(cl.Text) {
-				_, o := cu.Pkg.Types.Scope().LookupParent(tn, token.NoPos)
+				var o types.Object
+				if i := strings.Index(tn, "."); i > 0 {
+					ps := cu.Pkg.Types.Scope()
+					for c := 0; c < ps.NumChildren(); c++ {
+						if pn, ok := ps.Child(c).Lookup(tn[:i]).(*types.PkgName); ok {
+							o = pn.Imported().Scope().Lookup(tn[i+1:])
+						}
+					}
+				} else {
+					_, o = cu.Pkg.Types.Scope().LookupParent(tn, token.NoPos)
+				}
 				tnm, ok := o.(*types.TypeName)
 				if !ok {
 					x.fail(n.Pos(), "BINDING: allocates %s: unknown type", tn)
@@ -776,6 +786,36 @@ func (x *Exec) sortModel(env *evalEnv, n *ast.CallExpr) []Val {
 	x.st.assume(fmt.Sprintf("(forall ((j Int)) (! (=> (and (<= 0 j) (< j %s)) (and (<= 0 (%s j)) (< (%s j) %s) (= (%s (%s j)) j))) :pattern ((%s j))))", ln, pinv, pinv, ln, pi, pinv, pinv))
 	x.assignTo(n.Args[0], Val{x.ctx.mkSlice(s.Ty, arr, ln, x.ctx.slNil(s)), s.Ty})
 	x.st.ghost["sortperm"] = Val{pi, nil}
-	x.trustedUsed["sort.SliceStable (assumed: result is a permutation of the input; ordering by less not used)"] = true
+	// assumed: the result is ordered by less (evaluated on the sorted slice): forall i<j: !less(j,i)
+	if fl, ok := n.Args[1].(*ast.FuncLit); ok && len(fl.Type.Params.List) >= 1 {
+		var names []string
+		for _, f := range fl.Type.Params.List {
+			for _, nm := range f.Names {
+				names = append(names, nm.Name)
+			}
+		}
+		if len(names) == 2 {
+			func() {
+				defer func() {
+					if r := recover(); r != nil {
+						if _, isEval := r.(evalError); !isEval {
+							panic(r)
+						}
+						x.note("sort: the less function could not be turned into a term; only the permutation property is assumed")
+					}
+				}()
+				x.qcount++
+				qi, qj := fmt.Sprintf("i!q%d", x.qcount), fmt.Sprintf("j!q%d", x.qcount)
+				e2 := &evalEnv{info: env.info, pkg: env.pkg, bound: map[string]Val{names[0]: {qj, tInt}, names[1]: {qi, tInt}}, spec: true, old: env.old}
+				x.inSpec++
+				t, ok := x.retTerm(e2, fl.Body.List, "", false)
+				x.inSpec--
+				if ok {
+					x.st.assume(fmt.Sprintf("(forall ((%s Int) (%s Int)) (=> (and (<= 0 %s) (< %s %s) (< %s %s)) (not %s)))", qi, qj, qi, qi, qj, qj, ln, t))
+				}
+			}()
+		}
+	}
+	x.trustedUsed["sort.SliceStable (assumed: result is a permutation of the input, ordered by the less function)"] = true
 	return nil
 }
